@@ -13,6 +13,8 @@ structure Good (P : Bytes) (s : WState) : Prop where
   size : s.size = s.file.length
   ge : sizeofSuper ≤ s.size
   ops : ∃ rest, s.ops = .pwrite 0 P :: rest ∧ ∀ o ∈ rest, o.Safe
+  /-- the output call at the fault position is never issued -/
+  bound : ∀ j, s.fault.failAt = some j → s.ops.length ≤ j
 
 /-- `s'` is reached from `s` by modelled code that only writes at offsets in `[96, size]` -/
 structure Step (s s' : WState) : Prop where
@@ -21,12 +23,14 @@ structure Step (s s' : WState) : Prop where
   size : s.size ≤ s'.size
   good : ∀ P, Good P s → Good P s'
   ops : ∃ ext, s'.ops = s.ops ++ ext
+  cfg : s'.fault = s.fault
 
 theorem Step.refl (s : WState) : Step s s :=
-  ⟨id, fun _ => rfl, Nat.le_refl _, fun _ h => h, ⟨[], by simp⟩⟩
+  ⟨id, fun _ => rfl, Nat.le_refl _, fun _ h => h, ⟨[], by simp⟩, rfl⟩
 
 theorem Step.trans {a b c : WState} (h1 : Step a b) (h2 : Step b c) : Step a c := by
-  refine ⟨fun h => h1.err (h2.err h), ?_, Nat.le_trans h1.size h2.size, fun P h => h2.good P (h1.good P h), ?_⟩
+  refine ⟨fun h => h1.err (h2.err h), ?_, Nat.le_trans h1.size h2.size, fun P h => h2.good P (h1.good P h), ?_,
+    h2.cfg.trans h1.cfg⟩
   · intro h
     have hb := h1.frozen h
     rw [hb] at h2
@@ -41,30 +45,56 @@ theorem fWrite_of_err (s : WState) (off : Nat) (d : Bytes) (h : s.err ≠ none) 
   | none => exact absurd he h
   | some e => simp
 
+/-- setting the sticky error changes nothing else -/
+theorem setErr_step (s : WState) (e : Nat) (he : s.err = none) : Step s { s with err := some e } :=
+  ⟨fun h => by simp at h, fun h => absurd he h, Nat.le_refl _,
+   fun _ g => ⟨g.file, g.size, g.ge, g.ops, g.bound⟩, ⟨[], by simp⟩, rfl⟩
+
+theorem faults_false_failAt (s : WState) (n j : Nat) (h : s.faults n = false) (hj : s.fault.failAt = some j) :
+    j ≠ s.ops.length := by
+  unfold WState.faults at h
+  rw [hj] at h
+  simp only [Bool.or_eq_false_iff, beq_eq_false_iff_ne, ne_eq, Option.some.injEq] at h
+  exact h.1
+
+/-- the two outcomes of `stdio_write_at` in a state without error: the injected fault hits (only the error is
+recorded), or the call is carried out -/
+theorem fWrite_cases (s : WState) (off : Nat) (d : Bytes) (he : s.err = none) :
+    (d.length ≠ 0 ∧ s.faults (off + d.length) = true ∧ fWrite s off d = { s with err := some errIo }) ∨
+    ((d.length ≠ 0 → s.faults (off + d.length) = false) ∧ fWrite s off d = { s with
+        ops := if d.length = 0 then s.ops else s.ops ++ [.pwrite off d]
+        file := if d.length = 0 then s.file else filePwrite s.file off d
+        size := if off + d.length ≥ s.size then off + d.length else s.size }) := by
+  by_cases hf : d.length ≠ 0 ∧ s.faults (off + d.length) = true
+  · exact Or.inl ⟨hf.1, hf.2, by simp [fWrite, he, hf.1, hf.2]⟩
+  · refine Or.inr ⟨fun hd => ?_, ?_⟩
+    · cases hx : s.faults (off + d.length) with
+      | false => rfl
+      | true => exact absurd ⟨hd, hx⟩ hf
+    · unfold fWrite
+      rw [if_neg (by simp [he]), if_neg hf]
+
 theorem fWrite_step (s : WState) (off : Nat) (d : Bytes)
     (h : ∀ P, Good P s → s.err = none → sizeofSuper ≤ off ∧ off ≤ s.size) : Step s (fWrite s off d) := by
   cases he : s.err with
   | some e =>
     rw [fWrite_of_err s off d (by simp [he])]; exact Step.refl s
   | none =>
-    have hw : fWrite s off d = { s with
-        ops := if d.length = 0 then s.ops else s.ops ++ [.pwrite off d]
-        file := if d.length = 0 then s.file else filePwrite s.file off d
-        size := if off + d.length ≥ s.size then off + d.length else s.size } := by
-      simp [fWrite, he]
+    rcases fWrite_cases s off d he with ⟨_, _, hw⟩ | ⟨hnf, hw⟩
+    · rw [hw]; exact setErr_step s _ he
     rw [hw]
-    refine ⟨fun _ => he, fun h => absurd he h, ?_, ?_, ?_⟩
+    refine ⟨fun _ => he, fun h => absurd he h, ?_, ?_, ?_, rfl⟩
     · simp only; split <;> omega
     · intro P g
       obtain ⟨h1, h2⟩ := h P g he
       obtain ⟨rest, hr, hs⟩ := g.ops
       by_cases hd : d.length = 0
       · simp only [hd, if_true]
-        refine ⟨g.file, ?_, ?_, ⟨rest, hr, hs⟩⟩
+        refine ⟨g.file, ?_, ?_, ⟨rest, hr, hs⟩, g.bound⟩
         · simp only; rw [← g.size]; split <;> omega
         · simp only; have := g.ge; split <;> omega
       · simp only [hd, if_false]
-        refine ⟨?_, ?_, ?_, ⟨rest ++ [.pwrite off d], by rw [hr]; simp, ?_⟩⟩
+        refine ⟨?_, ?_, ?_, ⟨rest ++ [.pwrite off d], by rw [hr]; simp, ?_⟩, ?_⟩
         · simp only; rw [image_snoc, ← g.file]; rfl
         · simp only [filePwrite_length]; rw [← g.size]; split <;> omega
         · simp only; have := g.ge; split <;> omega
@@ -72,6 +102,11 @@ theorem fWrite_step (s : WState) (off : Nat) (d : Bytes)
           rcases List.mem_append.mp ho with ho | ho
           · exact hs o ho
           · simp at ho; subst ho; exact h1
+        · intro j hj
+          have hb := g.bound j hj
+          have hne := faults_false_failAt s _ j (hnf hd) hj
+          simp only [List.length_append, List.length_cons, List.length_nil]
+          omega
     · by_cases hd : d.length = 0
       · exact ⟨[], by simp [hd]⟩
       · exact ⟨[.pwrite off d], by simp [hd]⟩
@@ -166,7 +201,10 @@ theorem fWrite_size_of_ok (s : WState) (off : Nat) (d : Bytes) (h : (fWrite s of
     (fWrite s off d).size = (if off + d.length ≥ s.size then off + d.length else s.size) ∧ s.err = none := by
   cases he : s.err with
   | some e => rw [fWrite_of_err s off d (by simp [he])] at h; simp [he] at h
-  | none => simp [fWrite, he]
+  | none =>
+    rcases fWrite_cases s off d he with ⟨_, _, hw⟩ | ⟨_, hw⟩
+    · rw [hw] at h; simp at h
+    · rw [hw]; exact ⟨rfl, rfl⟩
 
 theorem xattrKv_step (cmp : Cmp) (s : WState) (x : XattrIn) : Step s (xattrKv cmp s x).1 :=
   (metaAppendAll_step cmp s _ _).trans (metaFlush_step cmp _ _)
@@ -200,9 +238,9 @@ theorem fail_step (s : WState) (e : Nat) : Step s (s.fail e) := by
   split
   · exact Step.refl s
   · rename_i he
-    refine ⟨fun h => by simp at h, fun h => ?_, Nat.le_refl _, ?_, ⟨[], by simp⟩⟩
+    refine ⟨fun h => by simp at h, fun h => ?_, Nat.le_refl _, ?_, ⟨[], by simp⟩, rfl⟩
     · exfalso; apply h; cases h' : s.err <;> simp_all
-    · intro P g; exact ⟨g.file, g.size, g.ge, g.ops⟩
+    · intro P g; exact ⟨g.file, g.size, g.ge, g.ops, g.bound⟩
 
 theorem writeOptions_step (s : WState) (o : Bytes) : Step s (writeOptions s o).1 := by
   unfold writeOptions
@@ -225,14 +263,18 @@ def BWInv (w : BlockW) : Prop := ∀ b ∈ w.blocks, sizeofSuper ≤ b.offset
 structure DStep (P : Bytes) (s s' : WState) : Prop where
   good : Good P s'
   ops : ∃ ext, s'.ops = s.ops ++ ext
+  cfg : s'.fault = s.fault
+  err : s'.err = none → s.err = none
+
+theorem DStep.refl {P : Bytes} {s : WState} (g : Good P s) : DStep P s s := ⟨g, ⟨[], by simp⟩, rfl, id⟩
 
 theorem DStep.of_step {P : Bytes} {s s' : WState} (g : Good P s) (h : Step s s') : DStep P s s' :=
-  ⟨h.good P g, h.ops⟩
+  ⟨h.good P g, h.ops, h.cfg, h.err⟩
 
 theorem DStep.trans {P : Bytes} {a b c : WState} (h1 : DStep P a b) (h2 : DStep P b c) : DStep P a c := by
   obtain ⟨e1, h1'⟩ := h1.ops
   obtain ⟨e2, h2'⟩ := h2.ops
-  exact ⟨h2.good, ⟨e1 ++ e2, by rw [h2', h1', List.append_assoc]⟩⟩
+  exact ⟨h2.good, ⟨e1 ++ e2, by rw [h2', h1', List.append_assoc]⟩, h2.cfg.trans h1.cfg, fun h => h1.err (h2.err h)⟩
 
 theorem fTrunc_of_err (s : WState) (n : Nat) (h : s.err ≠ none) : fTrunc s n = s := by
   unfold fTrunc
@@ -242,19 +284,27 @@ theorem fTrunc_of_err (s : WState) (n : Nat) (h : s.err ≠ none) : fTrunc s n =
 
 theorem fTrunc_dstep (P : Bytes) (s : WState) (n : Nat) (g : Good P s) (hn : sizeofSuper ≤ n) : DStep P s (fTrunc s n) := by
   cases he : s.err with
-  | some e => rw [fTrunc_of_err s n (by simp [he])]; exact ⟨g, ⟨[], by simp⟩⟩
+  | some e => rw [fTrunc_of_err s n (by simp [he])]; exact DStep.refl g
   | none =>
+    by_cases hf : s.faults n = true
+    · have hw : fTrunc s n = { s with err := some errIo } := by simp [fTrunc, he, hf]
+      rw [hw]; exact DStep.of_step g (setErr_step s _ he)
     have hw : fTrunc s n = { s with ops := s.ops ++ [.ftruncate n], file := fileTrunc s.file n, size := n } := by
-      simp [fTrunc, he]
+      simp [fTrunc, he, hf]
     rw [hw]
     obtain ⟨rest, hr, hs⟩ := g.ops
-    refine ⟨⟨?_, ?_, hn, ⟨rest ++ [.ftruncate n], by rw [hr]; simp, ?_⟩⟩, ⟨[.ftruncate n], rfl⟩⟩
+    refine ⟨⟨?_, ?_, hn, ⟨rest ++ [.ftruncate n], by rw [hr]; simp, ?_⟩, ?_⟩, ⟨[.ftruncate n], rfl⟩, rfl, fun _ => he⟩
     · simp only; rw [image_snoc, ← g.file]; rfl
     · simp only [fileTrunc_length]
     · intro o ho
       rcases List.mem_append.mp ho with ho | ho
       · exact hs o ho
       · simp at ho; subst ho; exact hn
+    · intro j hj
+      have hb := g.bound j hj
+      have hne := faults_false_failAt s n j (by cases hx : s.faults n <;> simp_all) hj
+      simp only [List.length_append, List.length_cons, List.length_nil]
+      omega
 
 theorem fail_of_err (s : WState) (e : Nat) (h : s.err ≠ none) : s.fail e = s := by
   unfold WState.fail
@@ -267,13 +317,13 @@ theorem dedup_dstep (P : Bytes) (s : WState) (w : BlockW) (fl : Nat) (g : Good P
   unfold dedup
   simp only
   split
-  · exact ⟨⟨g, ⟨[], by simp⟩⟩, hw⟩
+  · exact ⟨DStep.refl g, hw⟩
   · split
-    · exact ⟨⟨g, ⟨[], by simp⟩⟩, hw⟩
+    · exact ⟨DStep.refl g, hw⟩
     · split
       · exact ⟨DStep.of_step g (fail_step s _), hw⟩
       · split
-        · exact ⟨⟨g, ⟨[], by simp⟩⟩, hw⟩
+        · exact ⟨DStep.refl g, hw⟩
         · split
           · exact ⟨DStep.of_step g (fail_step s _), hw⟩
           · rename_i b hb
@@ -301,7 +351,7 @@ theorem writeDataBlock_dstep (P : Bytes) (s : WState) (w : BlockW) (c : BlkCall)
       rcases List.mem_append.mp hb with hb | hb
       · exact hw0 b hb
       · simp at hb; subst hb; exact g.ge
-    · exact ⟨⟨g, ⟨[], by simp⟩⟩, hw0⟩
+    · exact ⟨DStep.refl g, hw0⟩
   generalize (if c.data.length ≠ 0 ∧ ¬ hasFlag c.flags blkIsSparse = true then
         (fWrite s s.size c.data, ({ w0 with blocks := w0.blocks ++ [⟨s.size, mkBlkHash c.chksum (c.data.length ||| (if hasFlag c.flags blkIsCompressed = true then 0 else 2 ^ 24))⟩] } : BlockW))
         else (s, w0)) = sw at key ⊢
@@ -315,7 +365,7 @@ theorem writeDataBlock_dstep (P : Bytes) (s : WState) (w : BlockW) (c : BlkCall)
 theorem writeDataBlocks_dstep (P : Bytes) (s : WState) (w : BlockW) (l : List BlkCall) (g : Good P s) (hw : BWInv w) :
     DStep P s (writeDataBlocks s w l).1 := by
   induction l generalizing s w with
-  | nil => exact ⟨g, ⟨[], by simp [writeDataBlocks]⟩⟩
+  | nil => exact DStep.refl g
   | cons c r ih =>
     unfold writeDataBlocks
     have h := writeDataBlock_dstep P s w c g hw
@@ -347,37 +397,59 @@ theorem tables_step (r : Run) (s : WState) (sup : Super) : Step s (tables r s su
   · exact (h2.trans (idTableWrite_step _ _ _ _)).trans (xattrFlush_step _ _ _ _)
   · exact ((h2.trans (exportTableWrite_step _ _ _ _)).trans (idTableWrite_step _ _ _ _)).trans (xattrFlush_step _ _ _ _)
 
-/-- the state right after `sqfs_writer_init`: failed with an untouched log, or `Good` for the provisional superblock -/
+theorem inputCheck_step (r : Run) (s : WState) : Step s (inputCheck r s) := by
+  unfold inputCheck
+  split
+  · exact Step.refl s
+  · exact fail_step s _
+
+/-- the state right after `sqfs_writer_init`: failed with an untouched log (`sqfs_super_init` refused the
+parameters, or the provisional superblock write itself failed), or `Good` for the provisional superblock -/
 theorem wInit_spec (r : Run) :
-    (∃ e, superInit r.blockSize r.mtime r.compId = .error e ∧ (wInit r).1 = { err := some e }) ∨
-    (∃ sup, superInit r.blockSize r.mtime r.compId = .ok sup ∧ Good sup.encode (wInit r).1) := by
+    (wInit r).1.fault = r.fault ∧
+    (((wInit r).1.ops = [] ∧ (wInit r).1.err ≠ none) ∨
+     (∃ sup, superInit r.blockSize r.mtime r.compId = .ok sup ∧ Good sup.encode (wInit r).1)) := by
   unfold wInit
   cases h : superInit r.blockSize r.mtime r.compId with
-  | error e => exact Or.inl ⟨e, rfl, rfl⟩
+  | error e => exact ⟨rfl, Or.inl ⟨rfl, by simp⟩⟩
   | ok sup =>
-    refine Or.inr ⟨sup, rfl, ?_⟩
     simp only
-    apply (writeOptions_step _ r.opts).good
     have hl := encode_length sup
     have hne : ¬ sup.encode.length = 0 := by rw [hl]; simp [sizeofSuper]
-    refine ⟨?_, ?_, ?_, ⟨[], ?_, by simp⟩⟩
-    · simp [fWrite, hne, image, applyOps, Op.apply]
-    · simp [fWrite, hne, filePwrite_length]
-    · simp [fWrite, hl]
-    · simp [fWrite, hne]
+    have he0 : ({ fault := r.fault } : WState).err = none := rfl
+    have hwo := writeOptions_step (fWrite { fault := r.fault } 0 sup.encode) r.opts
+    rcases fWrite_cases { fault := r.fault } 0 sup.encode he0 with ⟨_, _, hw⟩ | ⟨hnf, hw⟩
+    · -- the provisional superblock write itself fails
+      rw [hw] at hwo ⊢
+      rw [hwo.frozen (by simp)]
+      exact ⟨rfl, Or.inl ⟨rfl, by simp⟩⟩
+    · rw [hw] at hwo ⊢
+      refine ⟨hwo.cfg, Or.inr ⟨sup, rfl, hwo.good _ ?_⟩⟩
+      simp only [hne, if_false]
+      refine ⟨?_, ?_, ?_, ⟨[], by simp, by simp⟩, ?_⟩
+      · simp [image, applyOps, Op.apply]
+      · simp [filePwrite_length]
+      · simp [hl]
+      · intro j hj
+        have := faults_false_failAt { fault := r.fault } _ j (hnf hne) hj
+        simp only [List.length_nil, List.nil_append, List.length_cons] at this ⊢
+        omega
 
 theorem preFinal_spec (r : Run) :
-    (∃ e, superInit r.blockSize r.mtime r.compId = .error e ∧ (preFinal r).1 = { err := some e }) ∨
-    (∃ sup, superInit r.blockSize r.mtime r.compId = .ok sup ∧ Good sup.encode (preFinal r).1) := by
+    (preFinal r).1.fault = r.fault ∧
+    (((preFinal r).1.ops = [] ∧ (preFinal r).1.err ≠ none) ∨
+     (∃ sup, superInit r.blockSize r.mtime r.compId = .ok sup ∧ Good sup.encode (preFinal r).1)) := by
   unfold preFinal
   simp only
-  rcases wInit_spec r with ⟨e, h1, h2⟩ | ⟨sup, h1, g⟩
-  · refine Or.inl ⟨e, h1, ?_⟩
-    have hne : (wInit r).1.err ≠ none := by rw [h2]; simp
-    rw [(tables_step r _ _).frozen (by rw [writeDataBlocks_frozen _ _ _ hne]; exact hne),
-        writeDataBlocks_frozen _ _ _ hne, h2]
-  · refine Or.inr ⟨sup, h1, ?_⟩
-    exact (tables_step r _ _).good _ (writeDataBlocks_dstep _ _ _ _ g (by intro b hb; simp at hb)).good
+  obtain ⟨hf, hw⟩ := wInit_spec r
+  rcases hw with ⟨h1, hne⟩ | ⟨sup, h1, g⟩
+  · have hd := writeDataBlocks_frozen (wInit r).1 {} r.blocks hne
+    rw [hd, (inputCheck_step r _).frozen hne, (tables_step r _ _).frozen hne]
+    exact ⟨hf, Or.inl ⟨h1, hne⟩⟩
+  · have hd := writeDataBlocks_dstep sup.encode (wInit r).1 {} r.blocks g (by intro b hb; cases hb)
+    have ht := (inputCheck_step r (writeDataBlocks (wInit r).1 {} r.blocks).1).trans (tables_step r _
+      { (wInit r).2 with inodeCount := r.inodeCount % 2 ^ 32 })
+    exact ⟨(ht.cfg.trans hd.cfg).trans hf, Or.inr ⟨sup, h1, ht.good _ hd.good⟩⟩
 
 theorem core_prefix (P : Bytes) (rest ext : List Op) (hP : P.length = sizeofSuper) (hid : (Super.decode P).idCount = 0)
     (hs : ∀ o ∈ rest, o.Safe) (k : Nat) (hk : k ≤ rest.length + 1) :
@@ -393,12 +465,6 @@ theorem core_prefix (P : Bytes) (rest ext : List Op) (hP : P.length = sizeofSupe
     apply rejected_of_idCount_zero
     rw [this.1]; exact hid
 
-theorem fWrite_ok (s : WState) (off : Nat) (d : Bytes) (he : s.err = none) :
-    (fWrite s off d).err = none ∧
-    (fWrite s off d).ops = (if d.length = 0 then s.ops else s.ops ++ [.pwrite off d]) ∧
-    (fWrite s off d).size = (if off + d.length ≥ s.size then off + d.length else s.size) := by
-  simp [fWrite, he]
-
 theorem padd_spec (s : WState) (size blk : Nat) :
     padd s size blk = s ∨ ∃ n, padd s size blk = fWrite s s.size (zeros n) := by
   unfold padd
@@ -406,66 +472,81 @@ theorem padd_spec (s : WState) (size blk : Nat) :
   · exact Or.inl rfl
   · exact Or.inr ⟨_, rfl⟩
 
-/-- the log of the complete run -/
+theorem padd_step (s : WState) (size blk : Nat) : Step s (padd s size blk) := by
+  rcases padd_spec s size blk with h | ⟨n, h⟩
+  · rw [h]; exact Step.refl s
+  · rw [h]; exact fWrite_append_step s _
+
+theorem run_of_commit_err (r : Run) (h : (commit r).err ≠ none) : run r = commit r :=
+  (padd_step (commit r) _ _).frozen h
+
+/-- a run that ended without error went through the final superblock write without error -/
+theorem commit_ok_of_run_ok (r : Run) (hok : (run r).err = none) : (commit r).err = none :=
+  (padd_step (commit r) _ _).err hok
+
+/-- the log of the complete run: either the run fails before it commits — then nothing is issued after the calls
+of `preFinal` —, or the final superblock write is carried out and at most the padding follows (whether or not the
+padding write succeeds) -/
 theorem run_ops (r : Run) :
-    ((preFinal r).1.err ≠ none ∧ run r = (preFinal r).1) ∨
-    ((preFinal r).1.err = none ∧ (run r).err = none ∧ ∃ pad, (run r).ops = (preFinal r).1.ops ++ .pwrite 0 (finalSuper r).encode :: pad ∧
+    ((commit r).err ≠ none ∧ run r = commit r ∧ (commit r).ops = (preFinal r).1.ops) ∨
+    ((preFinal r).1.err = none ∧ (commit r).err = none ∧ ∃ pad, (run r).ops = (preFinal r).1.ops ++ .pwrite 0 (finalSuper r).encode :: pad ∧
       (pad = [] ∨ ∃ n, pad = [.pwrite (max (preFinal r).1.size sizeofSuper) (zeros n)])) := by
   cases he : (preFinal r).1.err with
   | some e =>
     left
-    refine ⟨by simp, ?_⟩
     have hne : (preFinal r).1.err ≠ none := by simp [he]
-    unfold run
-    simp only
-    have h1 : fWrite (preFinal r).1 0 (finalSuper r).encode = (preFinal r).1 := fWrite_of_err _ _ _ hne
-    rw [h1]
-    rcases padd_spec (preFinal r).1 (finalSuper r).bytesUsed r.devblksize with h | ⟨n, h⟩
-    · exact h
-    · rw [h]; exact fWrite_of_err _ _ _ hne
+    have h1 : commit r = (preFinal r).1 := fWrite_of_err _ _ _ hne
+    have h2 : (commit r).err ≠ none := by rw [h1]; exact hne
+    exact ⟨h2, run_of_commit_err r h2, by rw [h1]⟩
   | none =>
-    right
-    refine ⟨rfl, ?_⟩
     have hl := encode_length (finalSuper r)
     have hne : ¬ (finalSuper r).encode.length = 0 := by rw [hl]; simp [sizeofSuper]
-    have hs1 : (fWrite (preFinal r).1 0 (finalSuper r).encode).ops = (preFinal r).1.ops ++ [.pwrite 0 (finalSuper r).encode] := by
-      simp [fWrite, he, hne]
-    have hs2 : (fWrite (preFinal r).1 0 (finalSuper r).encode).size = max (preFinal r).1.size sizeofSuper := by
-      simp [fWrite, he, hl]; split <;> omega
-    have hs3 : (fWrite (preFinal r).1 0 (finalSuper r).encode).err = none := by
-      simp [fWrite, he]
-    unfold run
-    simp only
-    generalize fWrite (preFinal r).1 0 (finalSuper r).encode = s1 at hs1 hs2 hs3 ⊢
-    rcases padd_spec s1 (finalSuper r).bytesUsed r.devblksize with h | ⟨n, h⟩
-    · rw [h]; exact ⟨hs3, [], by rw [hs1], Or.inl rfl⟩
-    · rw [h]
-      have hw := fWrite_ok s1 s1.size (zeros n) hs3
-      rw [zeros_length] at hw
-      refine ⟨hw.1, ?_⟩
-      by_cases hn : n = 0
-      · refine ⟨[], ?_, Or.inl rfl⟩
-        rw [hw.2.1, if_pos hn, hs1]
-      · refine ⟨[.pwrite (max (preFinal r).1.size sizeofSuper) (zeros n)], ?_, Or.inr ⟨n, rfl⟩⟩
-        rw [hw.2.1, if_neg hn, hs1, hs2]; simp
+    rcases fWrite_cases (preFinal r).1 0 (finalSuper r).encode he with ⟨_, _, hw⟩ | ⟨_, hw⟩
+    · left
+      have h1 : commit r = { (preFinal r).1 with err := some errIo } := hw
+      have h2 : (commit r).err ≠ none := by rw [h1]; simp
+      exact ⟨h2, run_of_commit_err r h2, by rw [h1]⟩
+    · right
+      have h1 : commit r = _ := hw
+      simp only [hne, if_false] at h1
+      have hs1 : (commit r).ops = (preFinal r).1.ops ++ [.pwrite 0 (finalSuper r).encode] := by rw [h1]
+      have hs2 : (commit r).size = max (preFinal r).1.size sizeofSuper := by
+        rw [h1]; simp only [hl, Nat.zero_add]; split <;> omega
+      have hs3 : (commit r).err = none := by rw [h1]; exact he
+      refine ⟨rfl, hs3, ?_⟩
+      unfold run
+      generalize commit r = s1 at hs1 hs2 hs3 ⊢
+      rcases padd_spec s1 (finalSuper r).bytesUsed r.devblksize with h | ⟨n, h⟩
+      · rw [h]; exact ⟨[], by rw [hs1], Or.inl rfl⟩
+      · rw [h]
+        rcases fWrite_cases s1 s1.size (zeros n) hs3 with ⟨_, _, hw2⟩ | ⟨_, hw2⟩
+        · rw [hw2]; exact ⟨[], by rw [hs1], Or.inl rfl⟩     -- the padding write fails: nothing more is issued
+        · rw [hw2, zeros_length]
+          by_cases hn : n = 0
+          · refine ⟨[], ?_, Or.inl rfl⟩
+            simp only [hn, if_true, hs1]
+          · refine ⟨[.pwrite (max (preFinal r).1.size sizeofSuper) (zeros n)], ?_, Or.inr ⟨n, rfl⟩⟩
+            simp only [hn, if_false, hs1, hs2]; simp
+
+theorem image_nil_rejected : readerAccepts (image []) = false :=
+  rejected_of_short _ (by simp [image, applyOps, sizeofSuper])
 
 /-- **prefix_rejected** -/
 theorem prefix_rejected' (r : Run) (k : Nat) (hk : k < kFinal r) :
     readerAccepts (image ((run r).ops.take k)) = false := by
   unfold kFinal at hk
-  rcases preFinal_spec r with ⟨e, _, h2⟩ | ⟨sup, h1, g⟩
-  · have : run r = (preFinal r).1 := by
-      rcases run_ops r with ⟨_, h⟩ | ⟨h, _⟩
-      · exact h
-      · rw [h2] at h; simp at h
-    rw [this, h2]
-    exact rejected_of_short _ (by simp [image, applyOps, sizeofSuper])
+  rcases (preFinal_spec r).2 with ⟨h2, hne⟩ | ⟨sup, h1, g⟩
+  · have : (run r).ops = [] := by
+      rcases run_ops r with ⟨_, h, h'⟩ | ⟨h, _⟩
+      · rw [h, h', h2]
+      · exact absurd h hne
+    rw [this]; simp only [List.take_nil]; exact image_nil_rejected
   · obtain ⟨rest, hr, hs⟩ := g.ops
     have hid : (Super.decode sup.encode).idCount = 0 := by
       rw [decode_encode]; simp [Super.wrap, superInit_idCount _ _ _ sup h1]
     have hext : ∃ ext, (run r).ops = (Op.pwrite 0 sup.encode :: rest) ++ ext := by
-      rcases run_ops r with ⟨_, h⟩ | ⟨_, _, pad, h, _⟩
-      · exact ⟨[], by rw [h, hr]; simp⟩
+      rcases run_ops r with ⟨_, h, h'⟩ | ⟨_, _, pad, h, _⟩
+      · exact ⟨[], by rw [h, h', hr]; simp⟩
       · exact ⟨_, by rw [h, hr]⟩
     obtain ⟨ext, hx⟩ := hext
     rw [hx]
@@ -475,17 +556,17 @@ theorem prefix_rejected' (r : Run) (k : Nat) (hk : k < kFinal r) :
 theorem zeros_all (n : Nat) : ∀ b ∈ zeros n, b = 0 := by
   intro b hb; simp [zeros] at hb; exact hb.2
 
-/-- successful run: the decomposition of the log -/
-theorem run_ok_ops (r : Run) (hok : (run r).err = none) :
+/-- a run that got through the final superblock write: the decomposition of the log -/
+theorem run_ok_ops (r : Run) (hok : (commit r).err = none) :
     ∃ sup rest pad, superInit r.blockSize r.mtime r.compId = .ok sup ∧ Good sup.encode (preFinal r).1 ∧
       (preFinal r).1.err = none ∧
       (preFinal r).1.ops = .pwrite 0 sup.encode :: rest ∧ (∀ o ∈ rest, o.Safe) ∧
       (run r).ops = .pwrite 0 sup.encode :: (rest ++ .pwrite 0 (finalSuper r).encode :: pad) ∧
       (pad = [] ∨ ∃ n, pad = [.pwrite (image (.pwrite 0 sup.encode :: rest)).length (zeros n)]) := by
-  rcases run_ops r with ⟨h1, h2⟩ | ⟨h1, _, pad, h2, h3⟩
-  · rw [h2] at hok; exact absurd hok h1
-  · rcases preFinal_spec r with ⟨e, _, h⟩ | ⟨sup, hs, g⟩
-    · rw [h] at h1; simp at h1
+  rcases run_ops r with ⟨h1, _⟩ | ⟨h1, _, pad, h2, h3⟩
+  · exact absurd hok h1
+  · rcases (preFinal_spec r).2 with ⟨_, h⟩ | ⟨sup, hs, g⟩
+    · exact absurd h1 h
     · obtain ⟨rest, hr, hsafe⟩ := g.ops
       refine ⟨sup, rest, pad, hs, g, h1, hr, hsafe, by rw [h2, hr]; simp, ?_⟩
       rcases h3 with h3 | ⟨n, h3⟩
@@ -493,7 +574,7 @@ theorem run_ok_ops (r : Run) (hok : (run r).err = none) :
       · refine Or.inr ⟨n, ?_⟩
         rw [h3, ← hr, ← g.file, ← g.size, Nat.max_eq_left g.ge]
 
-theorem suffix_complete' (r : Run) (hok : (run r).err = none) (k : Nat) (hk : kFinal r ≤ k) :
+theorem suffix_complete' (r : Run) (hok : (commit r).err = none) (k : Nat) (hk : kFinal r ≤ k) :
     ∃ pad, image (run r).ops = image ((run r).ops.take k) ++ pad ∧ ∀ b ∈ pad, b = 0 := by
   obtain ⟨sup, rest, pad, _, _, _, hr, hsafe, hops, hpad⟩ := run_ok_ops r hok
   unfold kFinal at hk
@@ -514,11 +595,15 @@ theorem suffix_complete' (r : Run) (hok : (run r).err = none) (k : Nat) (hk : kF
       have : zeros n = pad' := by simpa using h2
       rw [← this]; exact zeros_all n
 
-theorem super_region_invariant' (r : Run) (sup : Super) (h : superInit r.blockSize r.mtime r.compId = .ok sup) :
+theorem super_region_invariant' (r : Run) (sup : Super) (h : superInit r.blockSize r.mtime r.compId = .ok sup)
+    (hne : (run r).ops ≠ []) :
     (∃ rest, (preFinal r).1.ops = .pwrite 0 sup.encode :: rest ∧ ∀ o ∈ rest, o.Safe) ∧
     ∀ k, 1 ≤ k → k < kFinal r → (image ((run r).ops.take k)).take sizeofSuper = sup.encode := by
-  rcases preFinal_spec r with ⟨e, h1, _⟩ | ⟨sup', h1, g⟩
-  · rw [h] at h1; contradiction
+  rcases (preFinal_spec r).2 with ⟨h2, herr⟩ | ⟨sup', h1, g⟩
+  · exfalso; apply hne
+    rcases run_ops r with ⟨_, h, h'⟩ | ⟨h, _⟩
+    · rw [h, h', h2]
+    · exact absurd h herr
   · rw [h] at h1; injection h1 with h1; subst h1
     obtain ⟨rest, hr, hs⟩ := g.ops
     refine ⟨⟨rest, hr, hs⟩, ?_⟩
@@ -526,8 +611,8 @@ theorem super_region_invariant' (r : Run) (sup : Super) (h : superInit r.blockSi
     have hid : (Super.decode sup.encode).idCount = 0 := by
       rw [decode_encode]; simp [Super.wrap, superInit_idCount _ _ _ sup h]
     have hext : ∃ ext, (run r).ops = (Op.pwrite 0 sup.encode :: rest) ++ ext := by
-      rcases run_ops r with ⟨_, h⟩ | ⟨_, _, pad, h, _⟩
-      · exact ⟨[], by rw [h, hr]; simp⟩
+      rcases run_ops r with ⟨_, h, h'⟩ | ⟨_, _, pad, h, _⟩
+      · exact ⟨[], by rw [h, h', hr]; simp⟩
       · exact ⟨_, by rw [h, hr]⟩
     obtain ⟨ext, hx⟩ := hext
     unfold kFinal at hk
@@ -767,13 +852,13 @@ theorem wInit_head (r : Run) (sup : Super) (h : superInit r.blockSize r.mtime r.
   simp only
   split <;> rfl
 
-theorem finalSuper_ok (r : Run) (v : ValidCfg r) (hok : (run r).err = none) (hsz : (preFinal r).1.size < 2 ^ 64) :
+theorem finalSuper_ok (r : Run) (v : ValidCfg r) (hok : (commit r).err = none) (hsz : (preFinal r).1.size < 2 ^ 64) :
     SuperOk (finalSuper r) := by
   obtain ⟨sup, rest, pad, hsi, g, hpe, hr, hsafe, hops, hpad⟩ := run_ok_ops r hok
   obtain ⟨log, hl1, hl2, hbs⟩ := v.block
   have hh := superInit_head _ _ _ sup hsi
   have hw := wInit_head r sup hsi
-  obtain ⟨s1, hic, his, hst, hhd⟩ := tables_id r (writeDataBlocks (wInit r).1 {} r.blocks).1
+  obtain ⟨s1, hic, his, hst, hhd⟩ := tables_id r (inputCheck r (writeDataBlocks (wInit r).1 {} r.blocks).1)
     { (wInit r).2 with inodeCount := r.inodeCount % 2 ^ 32 }
   have hhead : (finalSuper r).head = sup.head := by
     unfold finalSuper preFinal
@@ -802,7 +887,7 @@ theorem finalSuper_ok (r : Run) (v : ValidCfg r) (hok : (run r).err = none) (hsz
   · rw [hids, hbu]; omega
   · rw [hids, hbu, hidc, htb]; omega
 
-theorem final_accepted' (r : Run) (v : ValidCfg r) (hok : (run r).err = none) (hsz : (preFinal r).1.size < 2 ^ 64)
+theorem final_accepted' (r : Run) (v : ValidCfg r) (hok : (commit r).err = none) (hsz : (preFinal r).1.size < 2 ^ 64)
     (k : Nat) (hk : kFinal r ≤ k) : readerAccepts (image ((run r).ops.take k)) = true := by
   have sok := finalSuper_ok r v hok hsz
   obtain ⟨sup, rest, pad, _, g, _, hr, hsafe, hops, hpad⟩ := run_ok_ops r hok
@@ -854,7 +939,7 @@ theorem isProvisional_init (bs mt c : Nat) (sup : Super) (h : superInit bs mt c 
   simp
 
 /-- the log of a successful model run passes the predicate the runner evaluates on the real logs -/
-theorem run_shape' (r : Run) (hok : (run r).err = none) (hsz : (preFinal r).1.size < 2 ^ 64) :
+theorem run_shape' (r : Run) (hok : (commit r).err = none) (hsz : (preFinal r).1.size < 2 ^ 64) :
     shapeCheck (run r).ops = true ∧ kFinalOf (run r).ops = kFinal r := by
   obtain ⟨sup, rest, pad, hsi, g, _, hr, hsafe, hops, hpad⟩ := run_ok_ops r hok
   have hns : ¬ (Op.pwrite 0 (finalSuper r).encode).Safe := by simp [Op.Safe, sizeofSuper]
@@ -875,4 +960,103 @@ theorem run_shape' (r : Run) (hok : (run r).err = none) (hsz : (preFinal r).1.si
   · rw [hops]
     unfold kFinalOf kFinal
     rw [List.tail_cons, hsp, hr]; simp
+
+/-! ## Failing runs -/
+
+/-- a run that fails at any step up to and including the final superblock write issues nothing after the calls
+made before the failure: its log is that of `preFinal` -/
+theorem failing_run_ops (r : Run) (hfail : (commit r).err ≠ none) : (run r).ops = (preFinal r).1.ops := by
+  rcases run_ops r with ⟨_, h, h'⟩ | ⟨_, h, _⟩
+  · rw [h, h']
+  · exact absurd h hfail
+
+/-- … and no crash point of it is accepted -/
+theorem failing_run_never_commits' (r : Run) (hfail : (commit r).err ≠ none) (k : Nat) :
+    readerAccepts (image ((run r).ops.take k)) = false := by
+  by_cases hk : k < kFinal r
+  · exact prefix_rejected' r k hk
+  · have hl : (run r).ops.length < kFinal r := by rw [failing_run_ops r hfail]; unfold kFinal; omega
+    rw [List.take_of_length_le (by omega)]
+    have := prefix_rejected' r (run r).ops.length hl
+    rwa [List.take_length] at this
+
+/-- every fault position up to and including the final superblock write makes the run fail -/
+theorem fault_position_fails' (r : Run) (j : Nat) (hf : r.fault.failAt = some j) (hj : j < kFinal r) :
+    (commit r).err ≠ none := by
+  unfold kFinal at hj
+  obtain ⟨hcfg, hsp⟩ := preFinal_spec r
+  cases he : (preFinal r).1.err with
+  | some e =>
+    have : commit r = (preFinal r).1 := fWrite_of_err _ _ _ (by simp [he])
+    rw [this, he]; simp
+  | none =>
+    rcases hsp with ⟨_, hne⟩ | ⟨sup, _, g⟩
+    · exact absurd he hne
+    · have hb := g.bound j (by rw [hcfg]; exact hf)
+      have hl := encode_length (finalSuper r)
+      have hne : (finalSuper r).encode.length ≠ 0 := by rw [hl]; simp [sizeofSuper]
+      rcases fWrite_cases (preFinal r).1 0 (finalSuper r).encode he with ⟨_, _, hw⟩ | ⟨hnf, _⟩
+      · have : commit r = _ := hw
+        rw [this]; simp
+      · have := faults_false_failAt (preFinal r).1 _ j (hnf hne) (by rw [hcfg]; exact hf)
+        omega
+
+/-- a failure reported by the input side (damaged or truncated input, allocation) makes the run fail -/
+theorem inputError_fails' (r : Run) (e : Nat) (h : r.inputError = some e) : (commit r).err ≠ none := by
+  have h1 : ∀ s : WState, (inputCheck r s).err ≠ none := by
+    intro s
+    unfold inputCheck WState.fail
+    rw [h]
+    simp only
+    split
+    · rename_i hs; cases hx : s.err <;> simp_all
+    · simp
+  have h2 : (preFinal r).1.err ≠ none := by
+    unfold preFinal
+    simp only
+    rw [(tables_step r _ _).frozen (h1 _)]
+    exact h1 _
+  have : commit r = (preFinal r).1 := fWrite_of_err _ _ _ h2
+  rw [this]; exact h2
+
+theorem all_safe_of_decide (l : List Op) (h : l.all (fun o => decide o.Safe) = true) : ∀ o ∈ l, o.Safe := by
+  intro o ho
+  have := List.all_eq_true.mp h o ho
+  simpa using this
+
+theorem all_safe_decide (l : List Op) (h : ∀ o ∈ l, o.Safe) : l.all (fun o => decide o.Safe) = true := by
+  apply List.all_eq_true.mpr
+  intro o ho
+  simpa using h o ho
+
+/-- no crash point of a log that has the shape of a failed run is accepted -/
+theorem failShape_rejected (ops : List Op) (h : failShapeCheck ops = true) (k : Nat) :
+    readerAccepts (image (ops.take k)) = false := by
+  unfold failShapeCheck at h
+  split at h
+  · simp only [List.take_nil]; exact image_nil_rejected
+  · rename_i p rest
+    simp only [Bool.and_eq_true] at h
+    obtain ⟨hp, hs⟩ := h
+    obtain ⟨hpl, hid⟩ := isProvisional_spec p hp
+    have hsafe := all_safe_of_decide rest hs
+    by_cases hk : k ≤ rest.length + 1
+    · have := (core_prefix p rest [] hpl hid hsafe k hk).1
+      simpa using this
+    · rw [List.take_of_length_le (by simp; omega)]
+      have := (core_prefix p rest [] hpl hid hsafe (rest.length + 1) (Nat.le_refl _)).1
+      rw [List.append_nil, List.take_of_length_le (by simp)] at this
+      exact this
+  · contradiction
+
+/-- the log of a model run that fails before it commits has the shape the runner checks on the logs of the real
+packers' failing runs -/
+theorem failing_run_shape' (r : Run) (hfail : (commit r).err ≠ none) : failShapeCheck (run r).ops = true := by
+  rw [failing_run_ops r hfail]
+  rcases (preFinal_spec r).2 with ⟨h2, _⟩ | ⟨sup, h1, g⟩
+  · rw [h2]; rfl
+  · obtain ⟨rest, hr, hs⟩ := g.ops
+    rw [hr]
+    simp only [failShapeCheck, isProvisional_init _ _ _ sup h1, all_safe_decide rest hs, Bool.and_self]
+
 end Sqfs.Writer
